@@ -773,11 +773,21 @@ func (v *env) diff(a, b outcome) string {
 				return "stored-differs:column-set:typed-off-stores-a-column-typed-on-does-not"
 			}
 		}
-		for name, cx := range x.Cols {
-			cy, ok := y.Cols[name]
-			if !ok {
+		for name := range x.Cols {
+			if _, ok := y.Cols[name]; !ok {
 				return "stored-differs:column-set:typed-on-stores-a-column-typed-off-drops"
 			}
+		}
+		// (the column sets are equal from here on; map iteration order cannot change the verdict:
+		// the first differing column in NAME order is reported)
+		names := make([]string, 0, len(x.Cols))
+		for name := range x.Cols {
+			names = append(names, name)
+		}
+		sort.Strings(names)
+		for _, name := range names {
+			cx := x.Cols[name]
+			cy := y.Cols[name]
 			if cx.Type != cy.Type {
 				return "stored-differs:column-type:" + cx.Type + "-vs-" + cy.Type
 			}
